@@ -342,4 +342,9 @@ def estimate_stats(voltages, stats_calc_num_samples=10000):
     data_sigma = xp.std(voltages[:calc_len])
     data_mean = xp.mean(voltages[:calc_len])
     
+    # Constant voltages have exactly zero variance, but rounding in the mean can 
+    # leave a residual of a few ulp in the computed standard deviation
+    if calc_len > 0 and xp.max(voltages[:calc_len]) == xp.min(voltages[:calc_len]):
+        data_sigma = data_sigma * 0
+    
     return data_mean, data_sigma
